@@ -304,8 +304,40 @@ def check(F, rep, tier):
             elif ctors: rep.bad("R06.8", "integer-classified-with:%s:%s" % (short, "+".join(sorted(ctors))), "%s decides that a core component is an integer on text produced by Sanitizer::%s instead of the integer sanitiser: text that only becomes digits after sanitising (e.g. '#42') is placed as a number" % (short, sorted(ctors)), site)
             else: rep.undecided("R06.8", "integer-classification:" + short, "cannot relate the parsed text to a resolve_value(.., sanitizer) call", site)
         rep.floor("R06.8", "core-number parses in %s" % short, n, 1)
+    # ---- R06.9 a custom component is looked up by its dotted key, part by part ------------------------------------------------
+    gcv = F.fn("crate::version::zerv::vars::ZervVars::get_custom_value")
+    if rep.anchor("R06.9", "ZervVars::get_custom_value", gcv):
+        rep.fn_seen(gcv)
+        gi = mir.inlined(F, gcv, depth=3)
+        nlook = 0
+        ALLOWED = ("::split", "::into_iter", "Iterator>::next", "::by_ref", "::iter", "::as_str", "Deref>::deref", "::borrow", "::as_ref")
+        for h in [gi] + F.children(gcv.path):
+            for bi, t in h.calls():
+                c = mir.callee(t) or ""
+                last = c.rsplit("::", 1)[-1]
+                if not ("Value::" in c and last in ("get", "pointer", "pointer_mut", "get_mut", "index")): continue
+                nlook += 1
+                site = "%s bb%d line %s" % (h.where(), bi, h.blocks[bi]["line"])
+                if last.startswith("pointer"):
+                    rep.bad("R06.9", "custom-lookup:pointer", "custom(..) keys are resolved with JSON-pointer syntax: '/', '~0', '~1' and numeric parts get a meaning the dotted lookup does not have (a set key is not found, or an array element is injected)", site)
+                    continue
+                if len(t[2]) < 2: continue
+                via = []; split_dot = False; from_key = False
+                for k, d in mir.deep_origins(h, t[2][1], stop=()):
+                    if k == "call" and d.isdigit() and h.blocks[int(d)]["t"][0] == "call":
+                        t2 = h.blocks[int(d)]["t"]; c2 = mir.callee(t2) or ""
+                        if c2.endswith("::split") and any(mir.const_arg(h, a) == "." for a in t2[2]): split_dot = True
+                        if not any(c2.endswith(x) for x in ALLOWED): via.append(c2.rsplit("::", 1)[-1])
+                    elif k == "param": from_key = True
+                if via: rep.undecided("R06.9", "custom-lookup:derived-key", "the looked-up name is computed through %s: whether it still equals the dotted part is not decided" % sorted(set(via)), site)
+                elif split_dot and from_key: rep.ok("R06.9", "each part of key.split('.') is looked up verbatim with Value::get", sample=site, nontrivial_key="lookup%d" % bi)
+                elif from_key: rep.ok("R06.9", "the key is looked up verbatim", sample=site, nontrivial_key="lookupv%d" % bi)
+                else: rep.undecided("R06.9", "custom-lookup:unknown-key", "cannot relate the looked-up name to the key parameter", site)
+        if nlook == 0: rep.undecided("R06.9", "custom-lookup:none", "no serde_json::Value lookup found in get_custom_value", gcv.where())
     import tables as _t
     _t.sanitizer_presets(F, rep, "R06.8", ("semver_str", "pep440_local_str", "uint", "key"))
+    core.borrow(F, rep, "c07", "C07", "R06.8", ("R07.3b:narrowing-cast",), "rendered numbers are the schema's numbers (no truncating cast on the rendering path)")
+    core.borrow(F, rep, "c16", "C16", "R06.8", ("R16.4:uint-guard",), "the integer sanitiser returns digits only (so 'integer-valued' means what the schema position rule assumes)")
     return core.finish(rep, explanation=EXPL, assumptions=ASSUME, trusted=TRUST)
 
 EXPL = ("Structural clauses of the placement rules read from the MIR of the two From<Zerv> impls and the presets: sections are fed to their processors in schema order; SemVer core slots 0/1/2 are major/minor/patch under count < 3 and the rest "
